@@ -61,9 +61,29 @@ impl Check for C01 {
         let mut ft = inp.ftape;
         let cfg = Cfg::draw(&mut ft);
         let (lib, _sw) = gen_lib(&mut wt, StrProfile::Gds);
+        // scale runs: the first four run indices use a library of 4.5-9 MB (block sizes of megabytes inside a writer or
+        // reader only matter there), fault-free; the name length shifts the alignment of everything that follows it
+        let scale = inp.index < 4;
+        let (lib, cfg) = if scale {
+            let mut big = GdsLibrary::new(["lib", "ab", "x", "name5"][inp.index as usize]);
+            big.units = gds21::GdsUnits::new(1e-3, 1e-9);
+            for si in 0..(1 + inp.index % 2) {
+                let mut st = gds21::GdsStruct::new(format!("big{}", si));
+                for b in 0..70i32 {
+                    st.elems.push(gds21::GdsElement::GdsBoundary(gds21::GdsBoundary { layer: (b % 7) as i16, datatype: 0, xy: (0..8000i32).map(|i| gds21::GdsPoint::new(i * 3 + b, b * 1000 - i)).collect(), ..Default::default() }));
+                }
+                big.structs.push(st);
+            }
+            (big, Cfg::FaultFree)
+        } else {
+            (lib, cfg)
+        };
         let io = new_io(ft, inp.want_sample);
         let mut out = RunOut::new();
         out.probes.hit(&format!("cfg_{}", cfg.name()));
+        if scale {
+            out.probes.hit("scale_run_library_of_megabytes");
+        }
         let fin = |mut out: RunOut, io: &Io, wt: &crate::rng::Tape, lib: &GdsLibrary, cfg: Cfg, extra: u64| -> RunOut {
             let r = io.borrow();
             out.digest = r.log.finish();
@@ -87,6 +107,19 @@ impl Check for C01 {
         };
         let viol = |class: &str, sig: String, detail: String, lib: &GdsLibrary, more: Value| Violation { class: class.into(), sig, detail, artefact: json!({"library": lib_artefact(lib), "more": more}) };
 
+        // history step (1 run in 8): an earlier write on this thread that the encoder refuses part-way (a boundary of
+        // 10 000 points does not fit a record); its outcome is not judged, the writes below must be unaffected
+        if io.borrow_mut().ftape.chance(1, 8) {
+            let mut refused = gds21::GdsLibrary::new("refused_earlier");
+            let mut st = gds21::GdsStruct::new("too_big");
+            st.elems.push(gds21::GdsElement::GdsBoundary(gds21::GdsBoundary { layer: 1, datatype: 0, xy: (0..10_000).map(|i| gds21::GdsPoint::new(i, -i)).collect(), ..Default::default() }));
+            refused.structs.push(st);
+            let mut junk: Vec<u8> = Vec::new();
+            match guard(|| refused.write(&mut junk)) {
+                Ok(Err(_)) => out.probes.hit("history:refused_write_before_the_judged_writes"),
+                _ => out.probes.hit("history:decoy_write_not_refused"),
+            }
+        }
         // ---- A: fault-free, in memory
         let sink = SimSink::new(&io, Policy::plain());
         let store = sink.store.clone();
